@@ -774,6 +774,15 @@ func (env *Env) call(x *SExpr) *SVal {
 			eqs = append(eqs, c.Eq(e.heap(env.st, h, e.hsorts[h]), e.heap(env.old, h, e.hsorts[h])))
 		}
 		return &SVal{T: c.And(eqs...), Typ: boolT}
+	case "addrof":
+		// addrof(b): the common.Address made of the first 20 bytes of b (len(b) >= 20 is the caller's business)
+		v := arg(0)
+		arr := e.byteRegion(env.st, e.slObj(v.T))
+		parts := make([]*smt.Term, 0, 20)
+		for j := 19; j >= 0; j-- {
+			parts = append(parts, c.Select(arr, c.BVOp("bvadd", e.slOff(v.T), e.bv64(uint64(j)))))
+		}
+		return &SVal{T: c.Concat(parts...), Typ: e.P.resolveType("addr", nil)}
 	case "strof":
 		// strof(b): the string value of a byte slice (same abstraction as the Go conversion string(b))
 		v := arg(0)
